@@ -43,9 +43,10 @@ def enc_index(ix):
 
 
 class Interp:
-    def __init__(self, backend, fdtype=None):
+    def __init__(self, backend, fdtype=None, use_npf=False):
         assert backend in ("mg", "np")
         self.backend = backend
+        self.use_npf = use_npf   # np backend: call the NumPy namesake itself (forward parity) instead of the reference closed form
         self.fdtype = np.dtype(fdtype) if fdtype is not None else None  # override for float leaves/literals (np only)
         self.env = {}
         self.raised = {}     # stmt index -> exception repr
@@ -153,6 +154,13 @@ class Interp:
             kw.pop("constant", None)
             if self.fdtype is not None and kw.get("dtype") is not None and np.dtype(kw["dtype"]).kind == "f":
                 kw["dtype"] = self.fdtype
+            if self.use_npf:
+                sp = st.get("sp", "mg")
+                if sp == "meth" and spec.meth is not None and hasattr(args[0], spec.meth):
+                    return getattr(args[0], spec.meth)(*args[1:], **kw)
+                if sp == "op" and spec.opr is not None:
+                    return OT.apply_operator(spec.opr, *args)
+                return (spec.npf or spec.ref)(*args, **kw)
             out = spec.ref(*args, **kw)
             return out
         sp = st.get("sp", "mg")
